@@ -746,6 +746,18 @@ def run_pair(trace, prop):
         res.probes["text does not load (nothing to compare)"] += 1
         res.digest = hs.hexdigest()
         return res
+    if pair == "cycles":
+        # the cycle counter counts steps (and their miss penalties): before the first step it reads 0, whatever the text
+        # made the assembler write into the data memory
+        for name, sim in sims.items():
+            try:
+                c0 = sim.state.performance_metrics.cycles
+            except Exception:  # noqa: BLE001
+                c0 = 0
+            if c0 != 0:
+                res.violate(P, "cycles-charged-by-load", expected=0, got=c0, side=name, settings=shown)
+                res.digest = hs.hexdigest()
+                return res
     cap = trace.get("cap", 1500)
     steps = {}
     for name, sim in sims.items():
